@@ -15,6 +15,25 @@ Theorem C16_parse_independent_of_history : forall tb sem input fuel old,
 Proof. intros. reflexivity. Qed.
 Print Assumptions C16_parse_independent_of_history.
 
+(** Histories: whatever a Parse call leaves behind in the object — ANY function [leftover] of the previous
+    stack and of the result, not only what the code leaves — the k-th call on the used object returns what a
+    freshly created parser returns on the k-th input (result, error with its expected list, action log, number of
+    scans: all fields of [result]). *)
+Fixpoint history (tb : tables) sem (fuel : nat) (leftover : stack -> result -> stack)
+                 (st : stack) (inputs : list (list token)) : list result :=
+  match inputs with
+  | [] => []
+  | i :: rest => let res := parse_on tb sem i fuel st in res :: history tb sem fuel leftover (leftover st res) rest
+  end.
+
+Theorem C16_history_independent : forall tb sem fuel leftover inputs st,
+  history tb sem fuel leftover st inputs = map (fun i => parse tb sem i fuel) inputs.
+Proof.
+  intros tb sem fuel leftover inputs. induction inputs as [|i rest IH]; intro st; [reflexivity|].
+  cbn [history map]. rewrite IH. reflexivity.
+Qed.
+Print Assumptions C16_history_independent.
+
 (** A lexer after Reset (fix: position, line and column) is a fresh lexer on the same source:
     every later prefix of its token stream is the fresh one, for every earlier state. *)
 Theorem C16_lexer_reset_is_fresh : forall d src l k,
